@@ -2,6 +2,7 @@ package main
 
 import (
 	"fmt"
+	"regexp"
 	"go/constant"
 	"go/types"
 	"sort"
@@ -30,6 +31,7 @@ type VC struct {
 	ufuns      map[string]bool
 
 	obls []*Obl
+	qdefs []qdef
 
 	assumptions map[string]bool // abstraction notes collected while generating
 	bytes       int
@@ -228,7 +230,66 @@ func (vc *VC) fieldSel(sortName string, st *types.Struct, i int) string {
 func (vc *VC) fieldOf(structType types.Type, i int, v string) string {
 	s := vc.structSortOf(structType)
 	st := structType.Underlying().(*types.Struct)
+	// projection of a constructor application: take the argument directly
+	if strings.HasPrefix(v, "(mk_"+s+" ") {
+		if args := splitSexpArgs(v[len("(mk_"+s+" ") : len(v)-1]); len(args) == st.NumFields() {
+			return args[i]
+		}
+	}
 	return fmt.Sprintf("(%s %s)", vc.fieldSel(s, st, i), v)
+}
+
+// splitSexpArgs splits "a (b c) d" into its top-level s-expressions.
+func splitSexpArgs(s string) []string {
+	var out []string
+	d := 0
+	start := -1
+	for i := 0; i < len(s); i++ {
+		c := s[i]
+		switch {
+		case c == '(':
+			if d == 0 && start < 0 {
+				start = i
+			}
+			d++
+		case c == ')':
+			d--
+			if d == 0 {
+				out = append(out, s[start:i+1])
+				start = -1
+			}
+		case c == ' ':
+			if d == 0 && start >= 0 {
+				out = append(out, s[start:i])
+				start = -1
+			}
+		default:
+			if d == 0 && start < 0 {
+				start = i
+			}
+		}
+	}
+	if start >= 0 {
+		out = append(out, s[start:])
+	}
+	return out
+}
+
+// structEq expands equality of two struct values into the conjunction of their leaf fields.
+func (vc *VC) structEq(t types.Type, a, b string) string {
+	st, ok := t.Underlying().(*types.Struct)
+	if !ok || a == b {
+		return eq(a, b)
+	}
+	s := vc.structSortOf(t)
+	if !strings.HasPrefix(a, "(mk_"+s+" ") && !strings.HasPrefix(b, "(mk_"+s+" ") {
+		return eq(a, b)
+	}
+	var parts []string
+	for i := 0; i < st.NumFields(); i++ {
+		parts = append(parts, vc.structEq(st.Field(i).Type(), vc.fieldOf(t, i, a), vc.fieldOf(t, i, b)))
+	}
+	return and(parts...)
 }
 
 // withField builds a struct value equal to v with field i replaced.
@@ -422,7 +483,65 @@ func (vc *VC) quantified(formula string) string {
 	n := vc.fresh("qa")
 	vc.decl(fmt.Sprintf("(declare-const %s Bool)", n))
 	vc.decl(qMark + fmt.Sprintf("(assert (= %s %s))", n, formula))
+	if v, body, ok := splitForallInt(formula); ok {
+		vc.qdefs = append(vc.qdefs, qdef{atom: n, v: v, body: body})
+	}
 	return n
+}
+
+type qdef struct{ atom, v, body string }
+
+// splitForallInt recognises "(forall ((v Int)) body)" (optionally "(! body :pattern ...)").
+func splitForallInt(f string) (v, body string, ok bool) {
+	const pre = "(forall (("
+	if !strings.HasPrefix(f, pre) || !strings.HasSuffix(f, ")") {
+		return
+	}
+	rest := f[len(pre):]
+	i := strings.Index(rest, " Int)) ")
+	if i < 0 || strings.ContainsAny(rest[:i], "() ") {
+		return
+	}
+	v = rest[:i]
+	body = rest[i+len(" Int)) ") : len(rest)-1]
+	if strings.HasPrefix(body, "(! ") {
+		if j := strings.LastIndex(body, " :pattern "); j > 0 {
+			body = body[3:j]
+		}
+	}
+	return v, body, true
+}
+
+var symRE = regexp.MustCompile(`[A-Za-z_][A-Za-z0-9_!.]*`)
+
+// substSym replaces the symbol v by term t in an s-expression text (symbols are whole tokens).
+func substSym(body, v, t string) string {
+	return symRE.ReplaceAllStringFunc(body, func(m string) string {
+		if m == v {
+			return t
+		}
+		return m
+	})
+}
+
+// skolemize: for a goal "(forall ((v Int)) G)", returns G[sk/v] plus instances of every assumed
+// integer-quantified formula at sk, sk+1 and sk-1 (the instances array-shifting proofs need and
+// that E-matching does not find through address arithmetic). Instances of assumed formulas are
+// implied by them, so adding them is sound.
+func (vc *VC) skolemize(goal string) (string, []string) {
+	v, body, ok := splitForallInt(goal)
+	if !ok {
+		return goal, nil
+	}
+	sk := vc.freshConst("sk", "Int")
+	g := substSym(body, v, sk)
+	var extra []string
+	for _, q := range vc.qdefs {
+		for _, t := range []string{sk, "(+ " + sk + " 1)", "(- " + sk + " 1)"} {
+			extra = append(extra, fmt.Sprintf("(=> %s %s)", q.atom, substSym(q.body, q.v, t)))
+		}
+	}
+	return g, extra
 }
 
 const preludeAxioms = `(assert (forall ((s Str)) (! (>= (strlen s) 0) :pattern ((strlen s)))))
